@@ -177,10 +177,11 @@ pub fn h2_request(variant: u64) -> Vec<u8> {
 /// `tfo`: TCP Fast Open (RFC 7413) -- the SYN itself carries ALL the client bytes (for kind 1 a complete single-segment
 /// ClientHello), no later data segments.  `bare`: no TCP options on any segment of the connection (an IPv4 SYN / ACK /
 /// FIN without payload is then exactly link header + 40 bytes: 54 on Ethernet).  Neither flag changes the random draws
-/// of a connection that does not set it.
-pub struct ConnSpec { pub kind: u64, pub v6: bool, pub id: u64, pub cid: Option<u64>, pub cport: Option<u16>, pub sid: Option<u64>, pub same_host: bool, pub client_ip_opts: bool, pub force_segs: Option<usize>, pub tfo: bool, pub bare: bool }
+/// of a connection that does not set it.  `macs`: (client MAC, server MAC) written into the Ethernet header by direction
+/// (default: the constant addresses of hnv_common::pkt::ether).
+pub struct ConnSpec { pub kind: u64, pub v6: bool, pub id: u64, pub cid: Option<u64>, pub cport: Option<u16>, pub sid: Option<u64>, pub same_host: bool, pub client_ip_opts: bool, pub force_segs: Option<usize>, pub tfo: bool, pub bare: bool, pub macs: Option<([u8; 6], [u8; 6])> }
 impl ConnSpec {
-    pub fn new(kind: u64, v6: bool, id: u64) -> ConnSpec { ConnSpec { kind, v6, id, cid: None, cport: None, sid: None, same_host: false, client_ip_opts: false, force_segs: None, tfo: false, bare: false } }
+    pub fn new(kind: u64, v6: bool, id: u64) -> ConnSpec { ConnSpec { kind, v6, id, cid: None, cport: None, sid: None, same_host: false, client_ip_opts: false, force_segs: None, tfo: false, bare: false, macs: None } }
 }
 
 /// frames of one connection, client address derived from `id` so identities are pairwise distinct
@@ -200,14 +201,20 @@ pub fn connection(r: &mut Rng, spec: &ConnSpec, t0: u64) -> Vec<Frame> {
     let ts_c0 = 100_000 + r.below(1_000_000); let ts_s0 = 5_000_000 + r.below(1_000_000);
     let v6 = spec.v6;
     let client_ip_opts = spec.client_ip_opts;
+    let macs = spec.macs;
     let mk = |from_client: bool, t: Tcp, ttl: u8| -> Vec<u8> {
-        if v6 { let mut ip = if from_client { Ip6::new(c6, s6) } else { Ip6::new(s6, c6) }; ip.hop = ttl; ether6(&ip, &t) }
+        let mut f = if v6 { let mut ip = if from_client { Ip6::new(c6, s6) } else { Ip6::new(s6, c6) }; ip.hop = ttl; ether6(&ip, &t) }
         else {
             let mut ip = if from_client { Ip4::new(c4, s4) } else { Ip4::new(s4, c4) }; ip.ttl = ttl;
             // IPv4 options (record route) in the client direction only: IHL 7 one way, 5 the other
             if from_client && client_ip_opts { ip.options = vec![7, 7, 4, 0, 0, 0, 0]; }
             ether4(&ip, &t)
+        };
+        if let Some((cm, sm)) = macs {
+            let (dst, src) = if from_client { (sm, cm) } else { (cm, sm) };
+            f[0..6].copy_from_slice(&dst); f[6..12].copy_from_slice(&src);
         }
+        f
     };
     let mut now = t0;
     let tsc = |now: u64| (ts_c0 + (now - t0) * hz_c / 1000) as u32;
@@ -261,6 +268,14 @@ pub fn connection(r: &mut Rng, spec: &ConnSpec, t0: u64) -> Vec<Frame> {
     if bare { fin.options = vec![]; }
     out.push((mk(true, fin, 64), now));
     out
+}
+
+/// a (client, server) pair of MAC addresses whose first octets include values that look like an IP version nibble
+/// (0x45..0x4f, 0x6X), the BSD-loopback signature 1e 00, locally administered, zero and broadcast-like prefixes
+pub fn pick_macs(r: &mut Rng) -> ([u8; 6], [u8; 6]) {
+    const FIRST: [u8; 11] = [0x45, 0x48, 0x4c, 0x4f, 0x60, 0x64, 0x6c, 0x1e, 0x02, 0x00, 0xff];
+    let mut one = |r: &mut Rng| { let a = *r.pick(&FIRST); let b = r.bytes(5); [a, if a == 0x1e { 0 } else { b[0] }, b[1], b[2], b[3], b[4]] };
+    let c = one(r); let s = one(r); (c, s)
 }
 
 /// what the client sends: an HTTP/1.1 request, a ClientHello record, an HTTP/2 connection start, or opaque bytes
